@@ -512,6 +512,18 @@ func (c *Cluster) shadowCheck(nd *rnode) {
 		c.fail("C03", "storage-index-inverted", fmt.Sprintf("replica %d storage first %d last %d", nd.id, fi, li))
 		return
 	}
+	if fi > 1 {
+		// the compaction point keeps the term of the entry that was there: raft reads it for the
+		// log-matching check of the first append after it and, when nothing follows it, as lastTerm()
+		// in the up-to-date check of a vote
+		if id, ok := c.chosen[fi-1]; ok {
+			t, err := nd.st.Term(fi - 1)
+			if err != nil || t != id.Term {
+				c.fail("C03", "storage-compaction-point-term", fmt.Sprintf("replica %d storage Term(%d)=%d,%v at its compaction point, the committed entry there has term %d", nd.id, fi-1, t, err, id.Term))
+				return
+			}
+		}
+	}
 	if li >= fi {
 		ents, err := nd.st.Entries(fi, li+1, 1<<30)
 		if err != nil || uint64(len(ents)) != li-fi+1 {
